@@ -145,6 +145,8 @@ pub struct Ctx {
     cur_nontrivial: bool,
     pub notes: BTreeMap<String, serde_json::Value>,
     sample_classes: HashSet<String>,
+    /// (case digest, digest of all observables) per case, for cross-build comparison (C17)
+    pub transcript: Vec<(u64, u64)>,
 }
 
 const DIGEST_CAP: usize = 400_000;
@@ -170,6 +172,7 @@ impl Ctx {
             cur_nontrivial: false,
             notes: BTreeMap::new(),
             sample_classes: HashSet::new(),
+            transcript: vec![],
         }
     }
     /// count one observation of a coverage class
@@ -341,6 +344,8 @@ pub fn guarded<R>(f: impl FnOnce() -> R) -> Result<R, (String, String)> {
 pub struct Slot {
     ptr: *mut u8,
     len: usize,
+    /// under Miri (no mmap): the slot is an ordinary file rewritten before every case
+    path: Option<String>,
 }
 unsafe impl Send for Slot {}
 
@@ -350,8 +355,7 @@ impl Slot {
     pub fn open(path: &str) -> Option<Slot> {
         #[cfg(miri)]
         {
-            let _ = path;
-            return None;
+            return Some(Slot { ptr: std::ptr::null_mut(), len: SLOT_SIZE, path: Some(path.to_string()) });
         }
         #[cfg(not(miri))]
         unsafe {
@@ -376,7 +380,7 @@ impl Slot {
             if p == libc::MAP_FAILED {
                 return None;
             }
-            Some(Slot { ptr: p as *mut u8, len: SLOT_SIZE })
+            Some(Slot { ptr: p as *mut u8, len: SLOT_SIZE, path: None })
         }
     }
     /// layout: u64 index | u32 entry_len | u32 nparams | u64 input_len(total) | u64 stored_len | entry | params | input
@@ -392,6 +396,11 @@ impl Slot {
         hdr.extend_from_slice(c.entry.as_bytes());
         for p in &c.params {
             hdr.extend_from_slice(&p.to_le_bytes());
+        }
+        if let Some(p) = &self.path {
+            hdr.extend_from_slice(&c.input[..stored]);
+            let _ = std::fs::write(p, &hdr);
+            return;
         }
         unsafe {
             std::ptr::copy_nonoverlapping(hdr.as_ptr(), self.ptr, hdr.len());
@@ -520,6 +529,14 @@ pub fn run_shard(chk: &'static dyn Check, g: GenParams, opts: RunOpts) -> i32 {
         raw.extend_from_slice(&d.to_le_bytes());
     }
     let _ = std::fs::write(format!("{}/shard_{}.dig", out, shard), raw);
+    if !ctx.transcript.is_empty() {
+        let mut raw = Vec::with_capacity(ctx.transcript.len() * 16);
+        for (a, b) in &ctx.transcript {
+            raw.extend_from_slice(&a.to_le_bytes());
+            raw.extend_from_slice(&b.to_le_bytes());
+        }
+        let _ = std::fs::write(format!("{}/shard_{}.tr", out, shard), raw);
+    }
     0
 }
 
